@@ -90,6 +90,16 @@ func C20(e *Env) {
 			run.Violate("make-iso-differs", fmt.Sprintf("ps3=%v", ps3), fmt.Sprintf("make-iso output (%d bytes) differs from the image the server serves for the same directory (%d bytes) at offset %d (sector %d)", len(got), ann, d, d/2048), wit)
 		}
 		os.Remove(outFile)
+		// the same to standard output
+		res2 := runCLI(e.Bin, out, append(args, dir, "-")...)
+		run.Eval(1)
+		run.Sig("make-iso ps3=%v to stdout", ps3)
+		if res2.code != 0 {
+			run.Violate("tool-failed", "make-iso-stdout", fmt.Sprintf("make-iso to '-' exited %d: %s", res2.code, firstLines(string(res2.stderr), 4)), wit)
+		} else if int64(len(res2.stdout)) != ann || !bytes.Equal(maskImage(res2.stdout, ps3), maskImage(served, ps3)) {
+			d := firstDiffIdx(maskImage(res2.stdout, ps3), maskImage(served, ps3))
+			run.Violate("make-iso-differs", fmt.Sprintf("stdout,ps3=%v", ps3), fmt.Sprintf("make-iso to standard output wrote %d bytes, the served image has %d; first difference at offset %d (stdout starts with %q)", len(res2.stdout), ann, d, string(res2.stdout[:min(len(res2.stdout), 50)])), wit)
+		}
 		if i < 2 {
 			run.Sample(wit)
 		}
